@@ -198,6 +198,12 @@ static bool judge(ArrWorld &w, const Op &op, const Outcome &o, bool valid, const
     Ctx &c = w.c;
     if (c.violated) return false;
     c.log(" %s -> %s errno=%s cb=%zu", fn, o.failed ? "FAIL" : "ok", o.failed ? errno_name(o.err) : "-", o.ncb);
+    {
+	int oi = (int)(op.I(0) % NOBJ + NOBJ) % NOBJ;
+	// vnadata(3) only says "see vnaerr(3)": whether a failing call reports is not asserted, how it reports is
+	c11_discipline(c, op.k, fn, o.failed, o.err, w.has_cb[oi], C11_MAY);
+	if (c.violated) return false;
+    }
     if (valid) {
 	if (o.failed) {
 	    if (o.fired) {
